@@ -1269,3 +1269,31 @@ ASSUMPTIONS += [
     "its arguments to the matcher; locals of the loop body are not aliased "
     "through containers",
 ]
+EXPLANATION += (
+    "  R2.28 (rules/c02_return_exempt.py): the flag `frame.check_return` that "
+    "R2.3's return site obeys may be False for a function with a declared "
+    "return type only if the callee is a stub: the abstract method itself "
+    "(self.is_abstract) or an attribute of a class called on a receiver "
+    "whose class is a protocol.  Every store to an attribute named "
+    "check_return outside an __init__ (today one, in InterpreterFunction."
+    "call) is decided by *executing* the backward slice of the stored value "
+    "and of the `if` tests around the store (rules/_minieval.py extended "
+    "with lambdas; module-local helpers such as _check_classes and methods "
+    "of the same class are interpreted) in 36 worlds: callee.is_abstract x "
+    "callee.is_attribute_of_class x receiver in {none, instance, class} x "
+    "receiver class is_abstract x is_protocol, with has_return_annotation "
+    "true; `not stored or stored falsy` must imply `stub`.  The spelling of "
+    "the condition is irrelevant (De Morgan, if/elif/else, helper method); a "
+    "condition that reads anything the worlds do not model is an analysis "
+    "error.  Blind spots of R2.28: the opposite direction (a stub that is "
+    "checked) is not required; receivers with several values of different "
+    "classes are not enumerated; that is_abstract / is_protocol / "
+    "is_attribute_of_class themselves are computed correctly is assumed; "
+    "the local that holds the receiver is recognised by its source "
+    "`<sig>.get_self_arg(..)`.")
+ASSUMPTIONS += [
+    "R2.28: Function.is_abstract marks the abstract method itself, "
+    "Class.is_abstract a class with unimplemented abstract methods, "
+    "Class.is_protocol a typing.Protocol class; a frame whose check_return "
+    "stays False is never return-checked (state.Frame default, R2.3)",
+]
